@@ -126,6 +126,8 @@ def run(ctx):
         s_ = branch_summary(rj.ch(tops[0])[bi], False)
         w_ = branch_summary(rj.ch(tops[1])[bi], True)
         ctx.check(e1, s_["ctor"] == w_["ctor"] and s_["step"] == w_["step"] and len(s_["ctor"]) == 1, key(rj, name + ":iterator"), rj.where(tops[1]), "%s: sizing walks %s/%s, writing walks %s/%s" % (name, s_["ctor"], s_["step"], w_["ctor"], w_["step"]))
+        want_ctor = {"alignment": "alignment_words(alignment)", "segmentation": "decoder_seg_iter(d)"}[name]
+        ctx.check(e1, s_["ctor"] == [want_ctor], key(rj, name + ":source"), rj.where(tops[0]), "%s: the list is walked from `%s`, not from the %s interface `%s` that the JSON has to agree with (a filtered or conditional source drops elements the iterators report)" % (name, s_["ctor"], name, want_ctor))
         ctx.check(e1, s_["fmt"] == w_["fmt"] and len(s_["fmt"]) == 1, key(rj, name + ":formatter"), rj.where(tops[1]), "%s: sizing calls %s, writing calls %s" % (name, s_["fmt"], w_["fmt"]))
         ctx.check(e1, s_["buf"] == [("0", "0")] and w_["buf"] == [("ptr", "maxlen")], key(rj, name + ":buffers"), rj.where(tops[1]), "%s: sizing must call the formatter with (NULL, 0), writing with the cursor and the tracked remainder (found %s / %s)" % (name, s_["buf"], w_["buf"]))
         # per element: sizing = CALL + 1 ; writing = len + 1 where len = CALL
@@ -233,6 +235,39 @@ def run(ctx):
                     forms = [f.canon(j, subst=False)]
                 ok = all(fm is not None and (fm == '""' or re.match(r"^\w*escape\w*\(", fm)) for fm in forms) and forms
                 ctx.check(e3, ok, key(f, "%s-arg"), f.where(c), "the %%s argument `%s` (from %s) is formatted into a JSON string without escaping: a word spelled with `\"` or `\\` yields invalid JSON" % (f.canon(arg, subst=False), [fm for fm in forms if fm != '""']))
+
+    # ---- E3b the escaping function itself ------------------------------------------------------------------
+    je = fns.get("json_escape")
+    if je is None:
+        raise AnalysisIncomplete("anchor vanished: json_escape")
+    ctx.touch(je)
+    scope = [je] + [g for c in je.calls() for g in P.fn_index.get(je.nodes[c].get("callee") or "", []) if g.file.endswith(U) and g.static]
+    ntests = 0
+    for g in scope:
+        for i in g.find("Bin"):
+            nd = g.nodes[i]
+            if nd["op"] not in ("<", "<=", ">", ">="):
+                continue
+            consts = [g.constval(c) for c in nd["ch"]]
+            if not any(v in (31, 32, 127, 128) for v in consts if v is not None):
+                continue
+            ntests += 1
+            other = [c for c, v in zip(nd["ch"], consts) if v is None]
+            t = ""
+            if other:
+                j = other[0]
+                while g.k(j) in ("Paren", "ICast"):      # implicit promotions only: an explicit cast decides the signedness
+                    j = g.ch(j)[0]
+                t = g.nodes[j].get("ct", g.nodes[j].get("t", ""))
+            ctx.check(e3, t.replace("const ", "").strip() in ("unsigned char", "unsigned int", "uint8", "unsigned short"), key(g, "control-test@%d" % g.line(i)), g.where(i), "the control-character test compares a value of type `%s`: with a signed char every byte of a UTF-8 sequence (>= 0x80) is negative, counts as a control character and is written as \\u00XX, which changes the word" % t)
+    ctx.check(e3, ntests >= 2, key(je, "control-tests"), je.where(je.root), "expected the control-character test in both passes of json_escape (found %d)" % ntests)
+    # both passes decide alike: same multiset of conditions in the counting loop and in the writing loop
+    loops = [lp for lp in je.find("For") + je.find("While")]
+    if len(loops) >= 2:
+        cs = []
+        for lp in loops[:2]:
+            cs.append(sorted(je.canon(je.ch(x)[0], subst=False) for x in je.find("If", root=lp)))
+        ctx.check(e3, cs[0] == cs[1], key(je, "passes-agree"), je.where(loops[0]), "the counting pass of json_escape decides by %s, the writing pass by %s" % (cs[0], cs[1]))
 
     # ---- E4 provenance of values -----------------------------------------------------------------------------------
     e4 = ctx.rule("PROV.E4-values", "times are frame index / frame rate plus the offset, durations (ef + 1 - sf) / frate resp. duration / frate, probabilities the exponentiated accessor results of the same iterator; the frame rate comes from the configuration", floor=8)
